@@ -577,6 +577,25 @@ class PteraTransformer(NodeTransformer):
                 wrapped_body.append(first)
                 body = body[1:]
 
+        # global / nonlocal declarations must come before any use of the
+        # name, hence before the interactions generated above
+        declarations = []
+
+        class _Hoist(NodeTransformer):
+            def visit_FunctionDef(self, sub):
+                return sub
+
+            visit_AsyncFunctionDef = visit_ClassDef = visit_Lambda = visit_FunctionDef
+
+            def visit_Global(self, sub):
+                declarations.append(sub)
+                return ast.copy_location(ast.Pass(), sub)
+
+            visit_Nonlocal = visit_Global
+
+        hoist = _Hoist()
+        node.body = [hoist.visit(stmt) for stmt in node.body]
+
         new_body += self.visit_body(node.body)
         new_body = self.delimit(
             new_body,
@@ -587,6 +606,7 @@ class PteraTransformer(NodeTransformer):
             exit_tag=self._get("exit_tag"),
         )
 
+        wrapped_body.extend(declarations)
         wrapped_body.append(
             ast.With(
                 items=[
